@@ -4,6 +4,9 @@ import GomlVerif.Model.AnfFrag
 import GomlVerif.Model.C03presMono
 import GomlVerif.Model.C03presSig
 import GomlVerif.Model.C03presMatch
+import GomlVerif.Model.Scoped
+import GomlVerif.Model.C03presLift
+import GomlVerif.Lemmas.LiftNoClosure
 import GomlVerif.Driver.C06
 /-!
 `gomlmodel c03pres`: the hypotheses and the conclusions of the preservation theorems
@@ -20,6 +23,9 @@ namespace Goml.Driver.C03pres
 open Goml Goml.Wt Goml.Anf Goml.Closed
 
 def count (l : List Bool) : Nat := (l.filter (fun b => b)).length
+
+/-- the global names of a stage: the functions of the file, builtins and externs -/
+def globals (S : Sig) : List String := S.fns.map (·.name) ++ S.builtins.map (·.1)
 
 def startCounter (A : List Fn) : Nat :=
   let ts := A.flatMap (fun f => C09.letTmps f.body)
@@ -43,9 +49,21 @@ def runAnf (id : String) (SL SA : Sig) : String :=
   let clBoth := rows.map fun ((f, g), _) => fnAllTys closedTy f && fnAllTys closedTy g
   let clContra := (rows.filter fun ((f, g), _) => fnAllTys closedTy f && !fnAllTys closedTy g).map fun ((f, _), _) => f.name
   let notIn := (rows.filter fun (_, h) => !h).map fun ((f, _), _) => f.name
+  -- `EQT` (C09: the type annotation of a reference to a temporary differs) is tolerated only when both outputs are judged alike
+  let judgeDiff := if model.length != SA.fns.length then ["function-count"] else
+    ((model.zip SA.fns).filter fun (g, r) => wtFn SL g != wtFn SA r).map fun (g, _) => g.name
+  let G := globals SL
+  let scIn := rows.map fun ((f, _), _) => Scoped.scopedFn G f
+  let scAppl := rows.map fun ((f, _), h) => h && Scoped.scopedFn G f
+  let scOut := rows.map fun ((_, g), _) => Scoped.scopedFn G g
+  let scOutReal := SA.fns.map fun g => Scoped.scopedFn (globals SA) g
+  let scContra := (rows.filter fun ((f, g), h) => h && Scoped.scopedFn G f && !Scoped.scopedFn G g).map fun ((f, _), _) => f.name
   s!"{id}\tanf\ttie={tieTag}\tstart={s}\tfns={SL.fns.length}\thyp={count flags}\twt_in={count wtIn}\tapplicable={count appl}" ++
   s!"\twt_out_model={count wtOut}\twt_out_real={count wtOutReal}\tcontra={" ".intercalate (contra.take 5)}" ++
   s!"\tclosed_in={count clIn}\tclosed_both={count clBoth}\tclosed_contra={" ".intercalate (clContra.take 5)}" ++
+  s!"\tscoped_in={count scIn}\tscoped_applicable={count scAppl}\tscoped_out_model={count scOut}\tscoped_out_real={count scOutReal}" ++
+  s!"\tscoped_contra={" ".intercalate (scContra.take 5)}" ++
+  s!"\tjudge_diff={" ".intercalate (judgeDiff.take 5)}" ++
   s!"\tnot_in_hyp={" ".intercalate (notIn.take 5)}"
 
 /-- `(pres mono <wtcase core> <wtcase mono>)`: the decidable hypotheses of `mono_phase1_preserves_wtProg_partial`
@@ -69,6 +87,54 @@ def runMono (id : String) (SC SM : Sig) (fuel : Nat) : String :=
     s!"\tapplicable_prog={b2n appl}\tinstances={c'.out.length}\twt_out_model={count wtOut}" ++
     s!"\treal_fns={SM.fns.length}\twt_out_real={count wtOutReal}\tcontra={if contra then "program" else ""}\tnot_in_hyp={if hyp then "" else "whole-program"}"
 
+/-- functions in the hypothesis of `liftFn_preserves_wt_partial` (closure-free, lifted before any closure type is
+registered, recomputed annotations in place), with the state threaded as `liftFns` does; for each: is the model's
+output the function itself, is the REAL Lift output (same name) the function itself -/
+def stableFns (st : Lift.State) (real : List Fn) : List Fn → Nat × Nat × Nat
+  | [] => (0, 0, 0)
+  | f :: rest =>
+    let r := Lift.liftFn st f
+    let (a, b, c) := stableFns r.2 real rest
+    if Lift.noClosure f.body && Lift.presHypStableFn st f then
+      let same := C09.showFn false r.1 == C09.showFn false f
+      let sameReal := match real.find? (·.name == f.name) with
+        | some g => C09.showFn false g == C09.showFn false f
+        | none => false
+      (a + 1, b + (if same then 1 else 0), c + (if sameReal then 1 else 0))
+    else (a, b, c)
+
+/-- `(pres lift <wtcase mono> <wtcase lift>)`: the decidable hypotheses of `lift_preserves_scoped`
+(`presHypArity` on every body, `scopedFns` of the real Mono dump) and its conclusion re-evaluated on the model's
+`liftFile` (any environment: the theorem holds for all), plus `scopedFns` of the REAL Lift dump -/
+def runLift (id : String) (SM SL : Sig) : String :=
+  let G := globals SM
+  let arity := SM.fns.map fun f => Lift.presHypArity f.body
+  let scIn := SM.fns.map (Scoped.scopedFn G)
+  let appl := arity.all (fun b => b) && scIn.all (fun b => b)
+  -- the lifting environment, rebuilt from the Mono dump: the monomorphic definitions (the dump's environment also lists
+  -- the generic definitions of genv, which `lambda_lift` never reads)
+  let env : Lift.Env := { gensym := 0, funcs := SM.fns.map fun f => (f.name, fnTy f),
+                          structs := SM.structs.filter (·.generics.isEmpty), enums := SM.enums.filter (·.generics.isEmpty) }
+  let r := Lift.liftFile env SM.fns
+  let G' := G ++ r.2.newFns.map (·.name)
+  let scOut := r.1.map (Scoped.scopedFn G')
+  let scOutReal := SL.fns.map (Scoped.scopedFn (globals SL))
+  let contra := appl && !(scOut.all (fun b => b))
+  let tyHyp := Lift.presHypEnvTys closedTy env && Lift.presHypFnsTys closedTy SM.fns
+  let tyOut := r.1.map (fnAllTys closedTy)
+  let tyOutReal := SL.fns.map (fnAllTys closedTy)
+  let tyContra := tyHyp && !(tyOut.all (fun b => b))
+  let (nStable, nSame, nSameReal) := stableFns (Lift.initState env) SL.fns SM.fns
+  let b2n (b : Bool) : Nat := if b then 1 else 0
+  s!"{id}\tlift\tfns={SM.fns.length}\thyp_arity={count arity}\tscoped_in={count scIn}\tapplicable_prog={b2n appl}" ++
+  s!"\tmodel_fns={r.1.length}\tapply_fns={r.2.newFns.length}\tscoped_out_model={count scOut}" ++
+  s!"\treal_fns={SL.fns.length}\tscoped_out_real={count scOutReal}\tcontra={if contra then "program" else ""}" ++
+  s!"\tclosedty_hyp_prog={b2n tyHyp}\tclosedty_out_model={count tyOut}\tclosedty_out_real={count tyOutReal}" ++
+  s!"\tclosed_contra={if tyContra then "program" else ""}" ++
+  s!"\twt_partial_applicable={nStable}\twt_partial_model_identity={nSame}\twt_partial_real_identity={nSameReal}" ++
+  s!"\tscoped_contra={if nSame != nStable then "wt-partial-identity" else ""}" ++
+  s!"\tnot_in_hyp={if appl then "" else "whole-program"}"
+
 def runLine (l : String) : String :=
   let (id, rest) := splitTab l
   match Sexp.parse rest with
@@ -79,6 +145,10 @@ def runLine (l : String) : String :=
   | some (.list [.atom "pres", .atom "mono", a, b]) =>
     match C03.decWt a, C03.decWt b with
     | some (_, SC), some (_, SM) => runMono id SC SM 5000
+    | _, _ => s!"{id}\tdecode-error"
+  | some (.list [.atom "pres", .atom "lift", a, b]) =>
+    match C03.decWt a, C03.decWt b with
+    | some (_, SM), some (_, SL) => runLift id SM SL
     | _, _ => s!"{id}\tdecode-error"
   | _ => s!"{id}\tparse-error"
 
